@@ -167,26 +167,28 @@ def features(sc, obs):
     return ['kind=' + sc['funs'][0]['kind'], 'blocked' if '|K ' in '|' + obs else 'not-blocked']
 
 
-EFFECT_SRC = {'stdout': 'print(1)', 'stderr': 'sys.stderr.write("x")',
-              'syscall': 'os.system("ls")', 'read': 'open("f").read()', 'stdin': 'input()', 'write': 'open("f", "w").write("x")',
-              'random': 'random.random()', 'time': 'time.time()'}
+EFFECT_SRC = {'stdout': ['print(1)', 'sys.stdout.write("x")'], 'stderr': ['sys.stderr.write("x")', 'print(1, file=sys.stderr)'],
+              'syscall': ['os.system("ls")', 'subprocess.check_output(["ls"])', 'subprocess.run(["ls"])', 'subprocess.call(["ls"])', 'subprocess.Popen(["ls"])', 'os.kill(0, 0)', 'os.popen("ls")'],
+              'read': ['open("f").read()', 'open("words.txt").read()', 'open("f", "r").read()', 'open("f", mode="rb").read()', 'open("f", "rt", encoding="w").read()'],
+              'stdin': ['input()'],
+              'write': ['open("f", "w").write("x")', 'open("f", "a").write("x")', 'open("f", mode="w").write("x")', 'open("f", "x").write("x")', 'open("f", "r+").write("x")', 'open("f", "wb").write(b"x")'],
+              'random': ['random.random()', 'random.randint(1, 2)', 'random.choice([1])'], 'time': ['time.time()', 'time.monotonic()']}
 
 
 def lint_part(ctx, fr):
     rnd = random.Random(ctx.seed + 44)
     cases, meta = [], []
-    for m, code in EFFECT_SRC.items():
-        for _ in range(4 if ctx.tier == 'quick' else 20):
+    for m, code in [(m, code) for m, codes in EFFECT_SRC.items() for code in codes]:
+        for _ in range(2 if ctx.tier == 'quick' else 8):
             M = rnd.sample(KNOWN, rnd.choice([0, 1, 1, 2, 3]))
             args = ', '.join(repr(x) for x in M)
-            src = f'import deal\nimport sys, os, socket, random, time\n\n@deal.has({args})\ndef f():\n    {code}\n    return 1\n'
+            src = f'import deal\nimport sys, os, socket, random, time, subprocess\n\n@deal.has({args})\ndef f():\n    {code}\n    return 1\n'
             cases.append({'src': src, 'backend': rnd.choice(['ast', 'astroid'])}); meta.append((M, m))
     res = impl.run_impl('lint_src.py', cases)
     for (M, m), c, r in zip(meta, cases, res):
         fr.evaluations += 1; fr.add_nontrivial({'lint': [sorted(M), m]})
         if 'crash' in r:
             fr.violations.append({'scenario': {'family': 'lint-source', **c}, 'impl': r, 'what': 'the linter crashed: ' + r['crash'], 'signature': None}); continue
-        uses_import = 'import ' in EFFECT_SRC[m]
         reported = {e[3].split('(')[-1].rstrip(')') for e in r['errors'] if e[2].startswith('DEL04') or e[2].startswith('DEL05')}
         want = not spec_covers(M, m)
         if (m in reported) != want:
